@@ -63,6 +63,7 @@ type c16Script struct {
 	byKey   map[string]*c16Call // request key -> scripted call
 	wg      sync.WaitGroup
 	noise   int
+	noZeroHeightNoise bool // a call for height 0 is scripted: an unsolicited push with request height 0 would be indistinguishable from its answer
 }
 
 func c16Key(kind string, h bitcoin.Hash32, height int) string {
@@ -211,6 +212,10 @@ func (s *c16Script) sendNoise(vc *vconn, r *rand.Rand) {
 	case 3:
 		vc.send(&Header{Header: vHeader(seed), BlockHeight: seed})
 	case 4:
+		if s.noZeroHeightNoise {
+			vc.send(&Header{Header: vHeader(seed), BlockHeight: seed})
+			return
+		}
 		// an unsolicited headers push (request height zero) whose first header sits at a height a
 		// pending call is asking for
 		s.mu.Lock()
@@ -389,6 +394,15 @@ func TestVerif_C16(t *testing.T) {
 			calls = append(calls, c)
 			script.byKey[c16Key(kind, c.key, c.height)] = c
 		}
+		zeroHeight := ci%3 == 0
+		if zeroHeight {
+			// height 0 is a key like any other (the answer's request height is 0 too)
+			c := c16MakeCall("GetHeaders", 0)
+			c.Action, c.DelayMS = []string{"answer", "answer", "twice"}[r.Intn(3)], r.Intn(30)
+			calls = append(calls, c)
+			script.byKey[c16Key("GetHeaders", c.key, 0)] = c
+			script.noZeroHeightNoise = true
+		}
 		if ci%4 == 1 {
 			// staggered: a call that is never answered times out while a later call of the same
 			// kind (another key) is still pending and is answered after that time-out, well
@@ -452,6 +466,37 @@ func TestVerif_C16(t *testing.T) {
 			continue
 		}
 		script.wg.Wait()
+		// second wave: keys of the first wave that were rejected or never answered are asked for
+		// again (a retry); this time the server answers
+		var calls2 []*c16Call
+		for _, c := range calls {
+			if len(calls2) < 4 && (c.Action == "reject" || c.Action == "never") && c.Kind != "GetFeeQuotes" && c.Kind != "GetHeadersRecent" {
+				c2 := c16MakeCall(c.Kind, c.Seed)
+				c2.Action, c2.DelayMS = "answer", []int{0, 10, 40}[r.Intn(3)]
+				calls2 = append(calls2, c2)
+				script.mu.Lock()
+				script.byKey[c16Key(c2.Kind, c2.key, c2.height)] = c2
+				script.mu.Unlock()
+			}
+		}
+		if len(calls2) > 0 {
+			var wg2 sync.WaitGroup
+			for _, c := range calls2 {
+				wg2.Add(1)
+				go func(c *c16Call) { defer wg2.Done(); c16DoCall(e, c) }(c)
+			}
+			done2 := make(chan struct{})
+			go func() { wg2.Wait(); close(done2) }()
+			select {
+			case <-done2:
+			case <-time.After(c16Timeout*3 + 5*time.Second):
+				rep.Inconc(ci, "second-wave calls did not return within the watchdog")
+				e.stop(3 * time.Second)
+				continue
+			}
+			script.wg.Wait()
+			rep.Event("retries_after_reject_or_timeout", int64(len(calls2)))
+		}
 		e.stop(3 * time.Second)
 
 		fp := map[string]int{}
@@ -463,6 +508,7 @@ func TestVerif_C16(t *testing.T) {
 			}
 			return map[string]interface{}{"connection_type": connType.String(), "calls": w, "unsolicited_sent": script.noise}
 		}
+		judge := func(calls []*c16Call) {
 		for _, c := range calls {
 			fp[c.Kind+"/"+c.Action]++
 			if c.Action != "answer" {
@@ -517,6 +563,9 @@ func TestVerif_C16(t *testing.T) {
 				}
 			}
 		}
+		}
+		judge(calls)
+		judge(calls2)
 		rep.Case(fmt.Sprint(connType, fp), len(calls) >= 2 && !plain)
 		if rep.WantSample() {
 			rep.Sample(witness())
